@@ -187,17 +187,28 @@ def eval_case(case, active_quirks=()):
             return out
         tt = case["tt"]
         states = []
+        g = []
         for x in range(2 ** n):
+            st0 = bits_of(x, n) + [False] * m
+            g.append(circ.run_classical(oj, st0)[ret])
             for r in (False, True):
                 st = bits_of(x, n) + [False] * m
                 st[ret] = r
                 res = circ.run_classical(oj, st)
                 exp = list(st)
-                exp[ret] = r ^ bool(tt[x])
+                exp[ret] = r ^ g[x]
                 states.append((st, res))
                 if res != exp:
                     out["skip"] = "blackbox-not-clean-xor"
         if out["skip"]:
+            return out
+        if g != [bool(b) for b in tt]:
+            if case.get("secret_oracle"):
+                # the generator is part of the property: a clean oracle of another function
+                out["violations"].append(dict(what="secret_oracle(n, s) compiles to a clean xor-oracle of a function other than x.s",
+                                              code=[int(b) for b in g], expected=list(tt)))
+                return out
+            out["skip"] = "blackbox-wrong-function"
             return out
     else:
         table = case["table"]
@@ -336,6 +347,10 @@ def dj_cases(ctx: Ctx):
                 cnt = sum(bits)
                 kind = "const" if cnt in (0, 2 ** n) else ("bal" if 2 * cnt == 2 ** n else None)
                 if kind is None:
+                    continue
+                # quick tier: the first argument type gets every function; the other types of
+                # 3 bits get both constants and a sample of the balanced ones
+                if n == 3 and ti > 0 and kind == "bal" and not ctx.thorough and rng.random() > 0.2:
                     continue
                 forms = ["anf"]
                 if n <= 2 or ctx.thorough or (ti == 0 and rng.random() < 0.25):
